@@ -277,7 +277,7 @@ Definition unsigned_suffix (n : N) (suffix : list N) : bool * token_enum :=
   else if list_eqb suffix s_i16 && (n <=? 32767) then (false, TSignedNum (Z.of_N n) I16)
   else if list_eqb suffix s_i32 && (n <=? 2147483647) then (false, TSignedNum (Z.of_N n) I32)
   else if list_eqb suffix s_i64 && (n <=? 9223372036854775807) then (false, TSignedNum (Z.of_N n) I64)
-  else if list_eqb suffix s_usize then (false, TUnsignedNum n Usize)  (* n <= usize::MAX always *)
+  else if list_eqb suffix s_usize && (n <=? 4294967295) then (false, TUnsignedNum n Usize)  (* usize has 32 bits in circuits (830d91b) *)
   else if list_eqb suffix s_u8 && (n <=? 255) then (false, TUnsignedNum n U8)
   else if list_eqb suffix s_u16 && (n <=? 65535) then (false, TUnsignedNum n U16)
   else if list_eqb suffix s_u32 && (n <=? 4294967295) then (false, TUnsignedNum n U32)
